@@ -39,8 +39,11 @@ CHECKS = {
     "C09": {"level": "exploration", "technique": "deterministic simulation of whole process images (main() with argv) with recording stdout/stderr seams, injected save-file I/O errors, scheduled keyboard thread, seeded RNG seam; validated against real subprocesses",
             "text": "Whole pcfg_guesser.main() process images on the scratch disk; stdout text must equal the guesses recorded at the print_guess seam, byte for byte, and --limit N output must be the first min(N,total) lines for N at/around group and Markov-level boundaries; faults: failing .sav writes, status/help requests from the real scheduled thread, quit + --load --limit (thorough); honeyword modes with the simulator's RNG.",
             "note": _TB + "; in-process capture is cross-checked against 6 real `python pcfg_guesser.py` processes per invocation"},
+    "C14": {"level": "exploration", "technique": "deterministic simulation of four process images over one scratch ruleset plus a quit/restart history in which the flags survive only in the save file; restriction oracle from the reference model",
+            "text": "Default, --skip_brute, --all_lower and both are run as whole process images over the same ruleset (Markov structure first/middle/last/absent/alone); the restricted streams are compared with the reference restriction (rescaled probabilities, order, guesses), and a flagged session is quit at a drawn pop and resumed with --load and no flags in a new process image, judged by RefResume.",
+            "note": _TB + "; order among (approximately) equal probabilities is not compared"},
 }
 
 _PENDING = "check not built yet in this round (planned: DESIGN.md §6); not claimed until its evidence exists"
 NOT_APPLICABLE = {p: _PENDING for p in
-                  ["C03", "C05", "C06", "C07", "C10", "C11", "C13", "C14", "C16", "C17", "C18", "C19", "C20"]}
+                  ["C03", "C05", "C06", "C07", "C10", "C11", "C13", "C16", "C17", "C18", "C19", "C20"]}
